@@ -472,7 +472,126 @@ func spaces(tier string) []kit.Space {
 			return map[string]any{"binary": ".build/C30race --race-companion", "first": i, "goroutines": 8, "rounds": 6}
 		},
 	})
+	// build histories: building (and running) one source must not depend on
+	// what the process built before. For every ordered pair (and a few triples)
+	// of a pool of small sources that touch process-wide tables on purpose
+	// (predeclared constants, unnamed struct types that differ only in tags,
+	// same-named defined types, native constants, failing builds), the last
+	// source is fingerprinted in a fresh process after the earlier ones and
+	// compared with its fingerprint when it is the only build of the process.
+	pool := historyPool()
+	np := uint64(len(pool))
+	var hmu sync.Mutex
+	alone := map[uint64]string{}
+	runHistory := func(seq []uint64) (string, error) {
+		var args []string
+		for _, k := range seq {
+			args = append(args, fmt.Sprint(k))
+		}
+		cmd := exec.Command(os.Args[0], "--history", strings.Join(args, ","))
+		out, err := cmd.Output()
+		if err != nil {
+			return "", fmt.Errorf("history process %v: %v", seq, err)
+		}
+		return string(out), nil
+	}
+	sps = append(sps, kit.Space{
+		Name: "build-histories",
+		Size: func() uint64 {
+			if tier == "thorough" {
+				return np*np + np*np*np
+			}
+			return np * np // triples only in the thorough tier (one process per case)
+		}(),
+		Eval: func(i uint64) kit.Outcome {
+			var seq []uint64
+			if i < np*np {
+				seq = []uint64{i / np, i % np}
+			} else {
+				k := i - np*np
+				seq = []uint64{k / np / np, k / np % np, k % np}
+			}
+			last := seq[len(seq)-1]
+			hmu.Lock()
+			base, ok := alone[last]
+			hmu.Unlock()
+			if !ok {
+				b, err := runHistory([]uint64{last})
+				if err != nil {
+					return kit.Outcome{Key: "harness|history-process-failed", Detail: err.Error()}
+				}
+				hmu.Lock()
+				alone[last] = b
+				hmu.Unlock()
+				base = b
+			}
+			got, err := runHistory(seq)
+			if err != nil {
+				return kit.Outcome{Key: "build-history-crashes|last=" + pool[last].name, Nontrivial: true, Detail: err.Error()}
+			}
+			if got != base {
+				var names []string
+				for _, k := range seq {
+					names = append(names, pool[k].name)
+				}
+				return kit.Outcome{Key: "build-depends-on-earlier-builds-of-the-process|last=" + pool[last].name, Nontrivial: true,
+					Detail: fmt.Sprintf("sources built in one process, in this order: %v\nthe last one gives a different artefact/outcome than when it is the only build of the process:\n%s\nsource of the last one: %v\nsource of the first one: %v", names, firstDiff(base, got), pool[last].files, pool[seq[0]].files)}
+			}
+			return kit.Outcome{OK: true, Nontrivial: true, Class: "same-as-alone", Ops: len(seq)}
+		},
+		Describe: func(i uint64) any {
+			if i < np*np {
+				return map[string]any{"history": []string{pool[i/np].name, pool[i%np].name}}
+			}
+			k := i - np*np
+			return map[string]any{"history": []string{pool[k/np/np].name, pool[k/np%np].name, pool[k%np].name}}
+		},
+	})
 	return sps
+}
+
+// historyPool is the pool of sources of the build-histories space.
+func historyPool() []*source {
+	prog := func(name, body string) *source {
+		return &source{name: "history/" + name, files: map[string]string{"main.go": "package main\n\n" + body}, run: true, opts: opts}
+	}
+	tmpl := func(name, src string) *source {
+		return &source{name: "history/" + name, entry: "index.html", files: map[string]string{"index.html": src}, run: true, opts: opts}
+	}
+	return []*source{
+		prog("tags-convert", "func main() {\n\tvar a struct{ X int `k:\"a\"` }\n\tb := struct{ X int `k:\"b\"` }(a)\n\tprintln(b.X)\n}\n"),
+		prog("tags-assign", "func main() {\n\tvar a struct{ X int `k:\"a\"` }\n\tvar b struct{ X int `k:\"b\"` } = a\n\tprintln(b.X)\n}\n"),
+		prog("defined-bool", "type Flag bool\n\nfunc main() {\n\tvar f Flag = true\n\tvar g Flag = false\n\tprintln(f, g)\n}\n"),
+		prog("plain-bool", "func main() {\n\tx := true\n\ty := false\n\tvar i, j interface{} = x, y\n\t_, ok1 := i.(bool)\n\t_, ok2 := j.(bool)\n\tprintln(ok1, ok2)\n}\n"),
+		prog("defined-int-and-nil", "type N int\n\nfunc main() {\n\tvar n N = 7\n\tvar p *N = nil\n\tconst c = iota\n\tprintln(n, p == nil, c)\n}\n"),
+		prog("plain-int", "func main() {\n\tx := 7\n\tvar i interface{} = x\n\t_, ok := i.(int)\n\tvar e error = nil\n\tprintln(ok, e == nil)\n}\n"),
+		prog("same-name-types", "type T int\n\nfunc f() interface{} {\n\ttype T string\n\treturn struct{ F T }{\"s\"}\n}\n\nfunc main() {\n\t_, ok := f().(struct{ F T })\n\tprintln(ok)\n}\n"),
+		prog("native-const", "import \"host\"\n\nfunc main() {\n\tvar f float64 = host.C03\n\tprintln(f, host.C03>>1, host.C05+1)\n}\n"),
+		prog("big-const", "const k = 1 << 70\n\nfunc main() {\n\tvar f float64 = k\n\tprintln(f, k>>69)\n}\n"),
+		prog("undefined", "func main() {\n\tprintln(nope)\n}\n"),
+		tmpl("tmpl-bool", "{% type Flag bool %}{% var f Flag = true %}{{ f }}{% x := true %}{{ x }}"),
+		tmpl("tmpl-plain", "{% x := true %}{% var i interface{} = x %}{% _, ok := i.(bool) %}{{ ok }}{{ title }}{{ g01 }}"),
+	}
+}
+
+// historyMain is the body of `C30 --history a,b,c`: builds the sources a, b, c
+// of the pool in this order and prints the fingerprint of the last one.
+func historyMain(arg string) {
+	pool := historyPool()
+	last := ""
+	for _, f := range strings.Split(arg, ",") {
+		k, err := strconv.Atoi(f)
+		if err != nil || k < 0 || k >= len(pool) {
+			fmt.Fprintln(os.Stderr, "bad history", arg)
+			os.Exit(2)
+		}
+		fp, err := build(pool[k])
+		if err != nil {
+			fp = "BUILD ERROR: " + err.Error()
+		}
+		last = fp
+	}
+	fmt.Print(last)
 }
 
 // raceFrame is the first frame of the race report that lies in the repository.
@@ -525,6 +644,10 @@ func raceCompanion(first int) {
 }
 
 func main() {
+	if len(os.Args) == 3 && os.Args[1] == "--history" {
+		historyMain(os.Args[2])
+		return
+	}
 	if len(os.Args) == 3 && os.Args[1] == "--race-companion" {
 		n, _ := strconv.Atoi(os.Args[2])
 		raceCompanion(n)
